@@ -4,7 +4,7 @@ from checks import shapes
 
 
 def run(ctx):
-    cases = wc.tlc_modes(ctx, ["mutants", "noncanon"])
+    cases = wc.tlc_modes(ctx, ["mutants", "noncanon", "twins"])
     n = wc.replay(ctx, cases, ["c02:"])
     rows, bases, _ = shapes.replay(ctx)
     nt = shapes.judge_c02(ctx, rows)
